@@ -312,9 +312,16 @@ func (c *core) addSelfEvent(otherHead string) error {
 	// Inserting the Event, and running consensus methods, can have a
 	// side-effect of adding items to the transaction pools (via the commit
 	// callback).
-	if err := c.signAndInsertSelfEvent(newHead); err != nil {
+	err := c.signAndInsertSelfEvent(newHead)
+	if err != nil {
 		c.logger.WithError(err).Errorf("Error inserting new head")
-		return err
+		if c.head != newHead.Hex() {
+			// the Event was not inserted; its payload stays pending
+			return err
+		}
+		// The Event was inserted and is the new head; one of the consensus
+		// methods failed afterwards. Its payload is recorded and must not be
+		// put in another Event.
 	}
 
 	c.logger.WithFields(logrus.Fields{
@@ -329,7 +336,7 @@ func (c *core) addSelfEvent(otherHead string) error {
 	c.internalTransactionPool = c.internalTransactionPool[itxs:]
 	c.selfBlockSignatures.RemoveSlice(sigs)
 
-	return nil
+	return err
 }
 
 // signAndInsertSelfEvent signs a Hashgraph Event, inserts it and runs
@@ -343,14 +350,21 @@ func (c *core) signAndInsertSelfEvent(event *hg.Event) error {
 
 // insertEventAndRunConsensus Inserts a hashgraph event and runs consensus
 func (c *core) insertEventAndRunConsensus(event *hg.Event, setWireInfo bool) error {
-	if err := c.hg.InsertEventAndRunConsensus(event, setWireInfo); err != nil {
-		return err
+	err := c.hg.InsertEventAndRunConsensus(event, setWireInfo)
+	if err != nil {
+		// InsertEventAndRunConsensus also fails when the Event was inserted and
+		// one of the consensus methods returned an error afterwards. In that
+		// case a new Event of ours is our head all the same; otherwise the next
+		// self-event would reuse its index and be refused for ever.
+		if _, getErr := c.hg.Store.GetEvent(event.Hex()); getErr != nil || event.Index() <= c.seq {
+			return err
+		}
 	}
 	if event.Creator() == c.validator.PublicKeyHex() {
 		c.head = event.Hex()
 		c.seq = event.Index()
 	}
-	return nil
+	return err
 }
 
 // knownEvents returns known events from the Hashgraph store
